@@ -186,4 +186,23 @@ def s2okAll : List Expr → Bool
 end
 
 
+mutual
+/-- every capture slot the expression touches lies below `n` -/
+def slotsBelow (n : Nat) : Expr → Bool
+  | .group g e => decide (2 * g + 1 < n) && slotsBelow n e
+  | .backref g => decide (2 * g + 1 < n)
+  | .keepOut => decide (0 < n)
+  | .concat es => slotsBelowAll n es
+  | .alt es => slotsBelowAll n es
+  | .repeat e _ _ _ => slotsBelow n e
+  | .look e _ => slotsBelow n e
+  | .atomic e => slotsBelow n e
+  | .backrefExists g => decide (2 * g + 1 < n)
+  | .cond c y f => slotsBelow n c && slotsBelow n y && slotsBelow n f
+  | _ => true
+def slotsBelowAll (n : Nat) : List Expr → Bool
+  | [] => true
+  | e :: es => slotsBelow n e && slotsBelowAll n es
+end
+
 end Fancy
